@@ -18,7 +18,6 @@ J3  code -> spec: real date() / named-method calls on inputs decorated with ever
 
 import json
 
-from .. import harness
 from .. import session_common as sc
 
 PID = "C02"
@@ -40,7 +39,9 @@ def settings_for(method, i):
         out.append(kw)
     if method == "variational_gamma":
         out.append({"singletons_phased": False, **({"set_metadata": pol[i % 3]} if pol[i % 3] is not None else {})})
-        out.append({"singletons_phased": False, "rescaling_intervals": 0, "max_iterations": 3})
+        out.append({"singletons_phased": False, "rescaling_intervals": 0, "max_iterations": 3, "time_units": "years"})
+    else:
+        out[i % 3]["time_units"] = "years"
     return out
 
 
@@ -73,7 +74,7 @@ def drive(ctx, corpus, only=None):
                 meta[(tid, 1)] = {"recipe": {"tid": tid}, "input": inp.name, "tags": sorted(inp.tags),
                                   "exc": repr(obs.exc) if obs.exc else None}
                 if not obs.ok:
-                    ctx.count("calls_rejected_or_failed")  # acceptance is C35's business
+                    sc.note_failure(ctx, PID, "date", fn_name, tid, obs, meta[(tid, 1)])
                     continue
                 ev = obs.event
                 ctx.nontriv(tid)
@@ -125,6 +126,7 @@ def run(ctx):
     corpus = sc.frame_corpus(ctx, k=1 if q else 3, big=not q)
     ctx.count("inputs", len(corpus))
     events, meta = drive(ctx, corpus)
+    sc.require_results(ctx, events)
     sc.judge(ctx, PID, CHECKS, events, meta, "date")
     if not q:
         ev = suite_events(ctx, ["tests/test_inference.py", "tests/test_noncontemporary.py", "tests/test_provenance.py",
